@@ -37,7 +37,7 @@ def rule(tier):
 def floors(tier):
     return {"evaluations": 250 if tier == "quick" else 1500, "distinct": 250 if tier == "quick" else 1500,
             "counters": {"fixture_documents": 60, "generated_documents": 30, "cells_compared": 300_000, "formula_cells_compared": 10_000, "cycles_second": 100,
-                         "package_saves": 50, "touched_variants": 100, "exempt_error_cells": 1}}
+                         "package_saves": 50, "same_object_second_saves": 250, "touched_variants": 100, "exempt_error_cells": 1}}
 
 
 def plan(tier, seed):
@@ -195,6 +195,21 @@ def resave_case(src, touched, package, cycles, rec, case, tag, fields_extra=None
             if cycle >= 2:
                 rec.count("cycles_second")
             compare(s_prev, s_new, ex_cells, ex_tables, rec, case, "first-cycle" if cycle == 1 else "later-cycle", fx)
+            if cycle == 1:
+                # the same open, still unmodified Document saved once more: that file, too, must read as the first one does
+                out2 = os.path.join(d, f"c02-{tag}-again.numbers")
+                made.append(out2)
+                try:
+                    warns2 = docs.save(doc, out2, package=package)
+                    with warnings.catch_warnings():
+                        warnings.simplefilter("ignore")
+                        s_again = S.document_snapshot(Document(out2))
+                except Exception as e:  # noqa: BLE001
+                    rec.violation("second_save_of_open_document_raised", {**fx, "exc": type(e).__name__, "package": package}, {"msg": str(e)[:200], "src": os.path.basename(src)}, case=case)
+                else:
+                    rec.count("same_object_second_saves")
+                    ex2c, ex2t = exemptions(warns2)
+                    compare(s_new, s_again, ex_cells | ex2c, ex_tables | ex2t, rec, case, "same-object-second-save", fx)
             s_prev = s_new
             cur = out
     finally:
